@@ -28,10 +28,11 @@ func TestVerif(t *testing.T) {
 	driver.Main(t, driver.Harness{
 		ID:    "C12",
 		Level: "exploration",
-		Rule: "plain enumeration of three input families, each case run under all 2 x 4 x 16 = 128 configurations: TarReproducible {off,on} on the source file store x intermediate store {memory, OCI layout on tmpfs, remote repository over the in-process registry model, file store} x {PreservePermissions, SkipUnpack, ForceCAS, IgnoreNoName} (all 16) on the second file store. " +
+		Rule: "plain enumeration of four input families, each case run under all 2 x 4 x 16 = 128 configurations: TarReproducible {off,on} on the source file store x intermediate store {memory, OCI layout on tmpfs, remote repository over the in-process registry model, file store} x {PreservePermissions, SkipUnpack, ForceCAS, IgnoreNoName} (all 16) on the second file store. " +
 			"Pipeline: harness writes the tree (explicit chmod, explicit atime/mtime incl. on symlinks) -> Store.Add(name, path != name; in family BLOBS a.txt and dirg with the empty default path) -> PackManifest v1.1 -> Tag -> Copy to the intermediate -> Copy (CopyGraph when IgnoreNoName, whose Tag step cannot succeed) into a file store on a fresh directory. " +
 			"Family NAMES: every directory tree below the added directory with nesting depth <= 3, siblings up to permutation, entry kinds {directory (hence empty directory), empty file, 1-byte file, 70KiB+1 file, symlink to a sibling, symlink ../x to an entry of the parent directory, dangling symlink} x name class {ascii, 101-byte, non-ASCII} chosen per entry (files 0644, directories 0755): quick <= 2 entries under each name of the added directory {top, nest/top, non-ASCII, 101-byte} and 3 entries under top; thorough <= 3 entries under each of the four names, 4 entries with one name class for the whole tree under top, 5 entries with ascii names under top. " +
 			"Family MODES: every tree with <= 3 entries over {directory 0755|0700|0777, 1-byte file 0644|0600|0755|0700|0444|0666} x (mode of the added directory {0755,0700,0777} under the inherited umask, 0755 under umask 0077 set for the case); thorough adds the 4-entry trees with 0755 under both umasks. " +
+			"Family ODD: every subset of <= 3 [thorough 4] out of ten odd entries below the added directory: names beginning with dots that are neither '.' nor '..' (..hidden, a directory '...', .../..x, .dot) and symbolic links whose targets are not in shortest form (./x, a trailing slash, a doubled slash, missing/../x, a target starting with two dots). " +
 			"Family BLOBS: every ordered selection of <= 3 [thorough 4] distinct items out of 9 added side by side: three files with the same bytes (one under a nested name, different modes), two 70KiB files with the same bytes (one under a 101-byte name), two empty files (one non-ASCII name), two directories with the same content under different names. " +
 			"Oracle (os, crypto/sha256, compress/gzip, archive/tar only): Add's descriptor carries the name, digest/size = sha256/length of the bytes the source store serves, the recorded uncompressed digest = sha256 of the gunzipped bytes, the archive decoded with archive/tar lists exactly the source entries (type, bytes, link target, mode); the restored tree is compared recursively below the added name (paths, types, bytes, link targets, modes masked with the process umask or exact with PreservePermissions; the added directory's own mode only with PreservePermissions; single files' modes and timestamps never); with SkipUnpack the stored file must be the descriptor's bytes; " +
 			"every name must materialise, names sharing bytes included, except that under ForceCAS one name per group of equal bytes suffices; per tree and TarReproducible setting a second copy of the tree with different atime/mtime everywhere is added to a second store: with TarReproducible the descriptors must be deeply equal; " +
@@ -186,6 +187,54 @@ func enumerate(family string, th bool, yield func(idx int, cs func() caseSpec)) 
 				}
 			})
 		}
+	case "odd":
+		// every non-empty subset of <= 3 [thorough 4] out of ten odd entries: names that begin with dots
+		// without being "." or "..", and symbolic links whose targets are not in shortest form (kept verbatim
+		// by tar and by the file system, so they must come back verbatim)
+		odd := []ent{
+			{rel: "..hidden", kind: 'f', mode: 0o644, data: oneByte, label: "file whose name starts with two dots"},
+			{rel: "...", kind: 'd', mode: 0o755, label: "directory named '...'"},
+			{rel: ".../..x", kind: 'f', mode: 0o644, data: oneByte, label: "file starting with two dots inside '...'"},
+			{rel: ".dot", kind: 'f', mode: 0o644, data: []byte{}, label: "file whose name starts with one dot"},
+			{rel: "x", kind: 'f', mode: 0o644, data: oneByte, label: "1-byte file"},
+			{rel: "l1", kind: 'l', target: "./x", label: "symlink with target ./x"},
+			{rel: "l2", kind: 'l', target: ".../", label: "symlink with a trailing slash in its target"},
+			{rel: "l3", kind: 'l', target: "...//..x", label: "symlink with a doubled slash in its target"},
+			{rel: "l4", kind: 'l', target: "missing/../x", label: "symlink through a missing directory and back"},
+			{rel: "l5", kind: 'l', target: "..hidden", label: "symlink to a name starting with two dots"},
+		}
+		max := 3
+		if th {
+			max = 4
+		}
+		var rec func(from int, cur []ent)
+		rec = func(from int, cur []ent) {
+			if len(cur) > 0 {
+				ents := append([]ent(nil), cur...)
+				yield(idx, func() caseSpec {
+					// a child needs its directory: '...' is added when '.../..x' is chosen without it
+					has := false
+					for _, e := range ents {
+						has = has || e.rel == "..."
+					}
+					out := ents
+					for _, e := range ents {
+						if e.rel == ".../..x" && !has {
+							out = append([]ent{odd[1]}, ents...)
+						}
+					}
+					return caseSpec{family, []item{{name: "top", dir: true, mode: 0o755, ents: out}}, -1}
+				})
+				idx++
+			}
+			if len(cur) == max {
+				return
+			}
+			for i := from; i < len(odd); i++ {
+				rec(i+1, append(cur, odd[i]))
+			}
+		}
+		rec(0, nil)
 	case "modes":
 		// top-directory mode x umask: all three modes under the inherited umask
 		// and 0755 under umask 0077; thorough adds the 4-entry trees with 0755
@@ -257,7 +306,7 @@ func jobs(tier string) []driver.Job {
 	for _, f := range []struct {
 		name string
 		nsh  int
-	}{{"blobs", 32}, {"modes", 32}, {"names", 160}} {
+	}{{"blobs", 32}, {"modes", 32}, {"odd", 8}, {"names", 160}} {
 		for sh := 0; sh < f.nsh; sh++ {
 			fam, sh, nsh := f.name, sh, f.nsh
 			name := fmt.Sprintf("%s/shard%d.%d", fam, sh, nsh)
